@@ -17,25 +17,25 @@ package jsonpath
 //@ spec pyHiN(s *syntaxSliceNegativeStepSubscript, n int) int = s.end.isOmitted ? 0 - 1 : pyClampN(s.end.number, n)
 
 //@ func (*syntaxSlicePositiveStepSubscript).getNormalizedValue
-//@   props C11 C03 C01
+//@   props C11 C03 C01 C04 C05 C06 C20
 //@   requires srcLength >= 0
 //@   ensures value: ret == pyClampP(value, srcLength)
 //@   pure
 
 //@ func (*syntaxSlicePositiveStepSubscript).getLoopStart
-//@   props C11 C03 C01
+//@   props C11 C03 C01 C04 C05 C06 C20
 //@   requires srcLength >= 0 && s != nil && s.start != nil
 //@   ensures value: ret == pyLoP(s, srcLength)
 //@   pure
 
 //@ func (*syntaxSlicePositiveStepSubscript).getLoopEnd
-//@   props C11 C03 C01
+//@   props C11 C03 C01 C04 C05 C06 C20
 //@   requires srcLength >= 0 && s != nil && s.end != nil
 //@   ensures value: ret == pyHiP(s, srcLength)
 //@   pure
 
 //@ func (*syntaxSlicePositiveStepSubscript).getIndexes
-//@   props C11 C03 C01
+//@   props C11 C03 C01 C04 C05 C06 C20
 //@   implements syntaxSubscript.getIndexes
 //@   unfold WFsub(this) ==> WFposDef(s)
 //@   ensures empty: (s.step.number <= 0 || pyLoP(s, srcLength) >= pyHiP(s, srcLength)) ==> len(ret) == 0
@@ -52,25 +52,25 @@ package jsonpath
 //@   loop 1 decreases loopEnd - i
 
 //@ func (*syntaxSliceNegativeStepSubscript).getNormalizedValue
-//@   props C11 C03 C01
+//@   props C11 C03 C01 C04 C05 C06 C20
 //@   requires srcLength >= 0
 //@   ensures value: ret == pyClampN(value, srcLength)
 //@   pure
 
 //@ func (*syntaxSliceNegativeStepSubscript).getLoopStart
-//@   props C11 C03 C01
+//@   props C11 C03 C01 C04 C05 C06 C20
 //@   requires srcLength >= 0 && s != nil && s.start != nil
 //@   ensures value: ret == pyLoN(s, srcLength)
 //@   pure
 
 //@ func (*syntaxSliceNegativeStepSubscript).getLoopEnd
-//@   props C11 C03 C01
+//@   props C11 C03 C01 C04 C05 C06 C20
 //@   requires srcLength >= 0 && s != nil && s.end != nil
 //@   ensures value: ret == pyHiN(s, srcLength)
 //@   pure
 
 //@ func (*syntaxSliceNegativeStepSubscript).getIndexes
-//@   props C11 C03 C01
+//@   props C11 C03 C01 C04 C05 C06 C20
 //@   implements syntaxSubscript.getIndexes
 //@   unfold WFsub(this) ==> WFnegDef(s)
 //@   ensures empty: (s.step.number >= 0 || pyLoN(s, srcLength) <= pyHiN(s, srcLength)) ==> len(ret) == 0
@@ -87,7 +87,7 @@ package jsonpath
 //@   loop 1 decreases i - loopEnd
 
 //@ func (*syntaxIndexSubscript).getIndexes
-//@   props C11 C03 C01
+//@   props C11 C03 C01 C04 C05 C06 C20
 //@   implements syntaxSubscript.getIndexes
 //@   unfold WFsub(this) ==> WFindexDef(i)
 //@   ensures front: (0 <= i.number && i.number < srcLength) ==> len(ret) == 1 && ret[0] == i.number
@@ -95,7 +95,7 @@ package jsonpath
 //@   ensures none: (i.number >= srcLength || i.number + srcLength < 0) ==> len(ret) == 0
 
 //@ func (*syntaxWildcardSubscript).getIndexes
-//@   props C11 C03 C01
+//@   props C11 C03 C01 C04 C05 C06 C20
 //@   implements syntaxSubscript.getIndexes
 //@   ensures all: len(ret) == srcLength && forall k :: 0 <= k && k < srcLength ==> ret[k] == k
 //@   loop 1 invariant 0 <= index && index <= srcLength
@@ -176,8 +176,20 @@ package jsonpath
 //@   releases asType(x, *bufferContainer) when p == resultSyncPool
 //@   releases asType(x, *sort.StringSlice) when p == sortSliceSyncPool
 
+// sort.StringSlice.Sort: the result is a permutation of the input (a function of the input contents,
+// given with its inverse) and ascending by Go's byte-wise string order; only that array changes.
+//@ smt (declare-fun sortPerm ((Array Int Str) Int Int Int) Int)
+//@ smt (declare-fun sortInv ((Array Int Str) Int Int Int) Int)
+//@ smt (assert (forall ((a Str)) (! (not (strLt a a)) :pattern ((strLt a a)))))
+//@ smt (assert (forall ((a Str) (b Str)) (! (=> (strLt a b) (not (strLt b a))) :pattern ((strLt a b)))))
+//@ smt (assert (forall ((a Str) (b Str)) (! (or (= a b) (strLt a b) (strLt b a)) :pattern ((strLt a b)))))
+//@ smt (assert (forall ((a Str) (b Str) (c Str)) (! (=> (and (strLt a b) (strLt b c)) (strLt a c)) :pattern ((strLt a b) (strLt b c)))))
 //@ extern (sort.StringSlice).Sort
+//@   requires wf(x) && (arr(x) == 0 || mine(x))
 //@   modifies heap:A_Str, elems(x)
+//@   ensures perm: forall i {elemAt(x, i)} :: off(x) <= i && i < off(x) + len(x) ==> off(x) <= sortPerm(old(A_Str[arr(x)]), off(x), len(x), i) && sortPerm(old(A_Str[arr(x)]), off(x), len(x), i) < off(x) + len(x) && elemAt(x, i) == old(A_Str[arr(x)])[sortPerm(old(A_Str[arr(x)]), off(x), len(x), i)] && sortInv(old(A_Str[arr(x)]), off(x), len(x), sortPerm(old(A_Str[arr(x)]), off(x), len(x), i)) == i
+//@   ensures inv: forall i {sortInv(old(A_Str[arr(x)]), off(x), len(x), i)} :: off(x) <= i && i < off(x) + len(x) ==> off(x) <= sortInv(old(A_Str[arr(x)]), off(x), len(x), i) && sortInv(old(A_Str[arr(x)]), off(x), len(x), i) < off(x) + len(x) && sortPerm(old(A_Str[arr(x)]), off(x), len(x), sortInv(old(A_Str[arr(x)]), off(x), len(x), i)) == i
+//@   ensures sorted: forall i, j {elemAt(x, i), elemAt(x, j)} :: off(x) <= i && i < j && j < off(x) + len(x) ==> !strLt(elemAt(x, j), elemAt(x, i))
 
 //@ extern reflect.TypeOf
 //@   ensures i != nil ==> ret != nil
@@ -201,8 +213,12 @@ package jsonpath
 //@   ensures owns: ownsKeys(ret)
 //@   ensures new: newKeys(ret)
 //@   ensures length: len(poolSlice(ret)) == len(srcMap)
+//@   ensures sorted: forall i, j {elemAt(poolSlice(ret), i), elemAt(poolSlice(ret), j)} :: off(poolSlice(ret)) <= i && i < j && j < off(poolSlice(ret)) + len(poolSlice(ret)) ==> strLt(elemAt(poolSlice(ret), i), elemAt(poolSlice(ret), j))
+//@   ensures dom: forall i {elemAt(poolSlice(ret), i)} :: off(poolSlice(ret)) <= i && i < off(poolSlice(ret)) + len(poolSlice(ret)) ==> has(srcMap, elemAt(poolSlice(ret), i))
+// (onto follows from length + strict order + dom by counting: bridge lemma, see DESIGN.md)
 //@   loop 1 invariant 0 <= index && index == rangepos && index <= length && held(sortKeys) && mine(sortKeys)
-//@   loop 1 invariant len(poolSlice(sortKeys)) == length && (arr(poolSlice(sortKeys)) == 0 || mine(poolSlice(sortKeys)))
+//@   loop 1 invariant len(poolSlice(sortKeys)) == length && (arr(poolSlice(sortKeys)) == 0 || mine(poolSlice(sortKeys))) && wf(poolSlice(sortKeys)) && !wasHeld(sortKeys) && !wasMine(sortKeys) && (arr(poolSlice(sortKeys)) == 0 || (!wasMine(poolSlice(sortKeys)) && !escaped(poolSlice(sortKeys))))
+//@   loop 1 invariant filled: forall j {elemAt(poolSlice(sortKeys), j)} :: off(poolSlice(sortKeys)) <= j && j < off(poolSlice(sortKeys)) + index ==> elemAt(poolSlice(sortKeys), j) == rangeKey(rangeiter, j - off(poolSlice(sortKeys)))
 //@   loop 1 decreases length - index
 
 //@ func putSortSlice
@@ -574,7 +590,8 @@ package jsonpath
 //@   props C03 C04 C05 C06 C20
 //@   implements syntaxQuery.compute
 //@   unfold WFquery(this) ==> WFpcurDef(e)
-//@   loop 1 invariant ownsBuf(container) && wf(result) && mine(result) && len(result) == len(currentList) && arr(result) != arr(container.result)
+//@   loop 1 invariant ownsBuf(container) && wf(result) && mine(result) && len(result) == len(currentList) && arr(result) != arr(container.result) && fresh(result) && (arr(currentList) == 0 || arr(currentList) != arr(container.result))
+//@   loop 1 invariant extStack(currentList) && (arr(currentList) == 0 || mine(currentList) || RO(currentList))
 
 //@ func (*syntaxBasicCompareParameter).compute
 //@   props C03 C04 C05 C06 C20
@@ -617,7 +634,8 @@ package jsonpath
 //@   requires WFfilterDef(f)
 //@   include retrieveFrame
 //@   decreases 3*height(f) + 1
-//@   loop 1 invariant ownsKeys(sortKeys) && wf(valueList) && mine(valueList) && len(valueList) == len(srcMap) && len(poolSlice(sortKeys)) == len(srcMap) && off(valueList) == 0
+//@   loop 1 invariant bufInv(container)
+//@   loop 1 invariant ownsKeys(sortKeys) && wf(valueList) && mine(valueList) && len(valueList) == len(srcMap) && len(poolSlice(sortKeys)) == len(srcMap) && off(valueList) == 0 && arr(valueList) != arr(container.result) && arr(valueList) != 0
 //@   loop 1 invariant forall k {elemAt(valueList, k)} :: 0 <= k && k <= rangeindex ==> extVal(elemAt(valueList, k))
 //@   loop 2 invariant bufInv(container) && errInv(deepestTextLen, deepestError) && ownsKeys(sortKeys) && len(poolSlice(sortKeys)) == len(srcMap)
 
